@@ -8,6 +8,7 @@ Record C08_obs_row := { or_key : pk; or_tx : Z; or_index : nat;
                         or_next : option Z; or_prev : option Z }.
 Record C08_case := {
   c8_validity : bool;                      (* strategy = validity?                       *)
+  c8_e2e  : bool;                          (* the table was written by the code's own write path *)
   c8_tbl  : vtable;                        (* rows loaded into the version table          *)
   c8_vers : list (pk * list Z);            (* per parent key: tx ids of obj.versions.all() *)
   c8_rows : list C08_obs_row;              (* per version row: index / next / previous     *)
@@ -68,6 +69,8 @@ Definition C08_prop (c : C08_case) : bool :=
         end
     end) (c8_rows c).
 
-(* hypothesis of the validity-strategy theorem; cases violating it are not counted *)
+(* hypothesis of the validity-strategy theorem; loaded tables violating it are not counted. A table written by the
+   code itself is always counted: there the chain is the write path's obligation (C03), and navigation over what
+   the code wrote has to be consistent without further hypotheses. *)
 Definition C08_pre (c : C08_case) : bool :=
-  if c8_validity c then chain_okb (c8_tbl c) else true.
+  if c8_validity c && negb (c8_e2e c) then chain_okb (c8_tbl c) else true.
